@@ -324,6 +324,72 @@ fn run(ctx: &mut Ctx) {
             ctx.count("validated", execs);
         }
     }
+    // ---- import: the CSV field map (format.fields is a hash map; hook in cli/src/import/csv.rs) ----
+    // every subset of >= 2 of 4 optional fields, each field valid or carrying a broken template: the diagnostic
+    // (which broken field is named) and the output must not depend on the order in which the map yields its entries
+    {
+        let opt: [(&str, &str, &str); 4] = [
+            ("note", "      template: \"{category} x\"", "      template: \"{nosuch1\""),
+            ("category", "category", "      template: \"{nosuch2\""),
+            ("commodity", "commodity", "      template: \"{nosuch3\""),
+            ("payee", "payee", "      template: \"{nosuch4\""),
+        ];
+        let csv = "date,payee,amount,category,commodity\n2024-01-05,MIGROS 1234 Zurich,-20.50,Grocery stores,CHF\n2024-01-07,Salary,1000.00,Income,CHF\n";
+        let fdir = dir.join(format!("fieldmap-{}", ctx.shard));
+        // state of each optional field: 0 = absent, 1 = valid, 2 = broken template
+        for code in 0..81u32 {
+            let st: Vec<u32> = (0..4).map(|i| (code / 3u32.pow(i)) % 3).collect();
+            if st[3] == 0 || st.iter().filter(|x| **x == 2).count() < 2 {
+                // payee is mandatory; with fewer than two broken fields there is nothing to choose between
+                continue;
+            }
+            if !ctx.next_is_mine() {
+                ctx.skip_cases(1);
+                continue;
+            }
+            let mut fields = String::from("    date: date\n    amount: amount\n");
+            for (i, (name, valid, broken)) in opt.iter().enumerate() {
+                match st[i] {
+                    1 if valid.starts_with(' ') => fields.push_str(&format!("    {}:\n{}\n", name, valid)),
+                    1 => fields.push_str(&format!("    {}: {}\n", name, valid)),
+                    2 => fields.push_str(&format!("    {}:\n{}\n", name, broken)),
+                    _ => {}
+                }
+            }
+            let cfg = format!("path: \"stmt\"\nencoding: UTF-8\naccount: \"Assets:Bank\"\naccount_type: asset\ncommodity: CHF\nformat:\n  date: \"%Y-%m-%d\"\n  fields:\n{}rewrite: []\n", fields);
+            let mut execs = 0u64;
+            let tick_ctx: *const Ctx = ctx;
+            let tick = move || unsafe { (*tick_ctx).tick() };
+            ctx.case(
+                || format!("$ okane import --config c.yml stmt.csv\n== c.yml ==\n{}== stmt.csv ==\n{}", cfg, csv),
+                || {
+                    std::fs::create_dir_all(&fdir).expect("mkdir");
+                    let cp = fdir.join("c.yml");
+                    let sp = fdir.join("stmt.csv");
+                    std::fs::write(&cp, &cfg).expect("write config");
+                    std::fs::write(&sp, csv).expect("write statement");
+                    let args: Vec<String> = ["okane", "import", "--config", &cp.to_string_lossy(), &sp.to_string_lossy()].iter().map(|x| x.to_string()).collect();
+                    let dstr = fdir.to_string_lossy().to_string();
+                    let f = || run_cli(&args).replace(&dstr, "<dir>");
+                    let ex = explore(bound.max(1), &f, &tick);
+                    execs = ex.executions;
+                    if ex.outcomes.len() > 1 {
+                        let (choices, other) = ex.witness.clone().unwrap();
+                        let (base_run, _) = exec(&[], &f);
+                        return Outcome::violation(
+                            "error-text-differs/import/csv-field-map-order",
+                            format!("{} distinct observations over {} executions; entry-order choice vector {:?}\n--- default order ---\n{}\n--- other order ---\n{}", ex.outcomes.len(), ex.executions, choices, base_run, other),
+                        );
+                    }
+                    let o = ex.outcomes.iter().next().cloned().unwrap_or_default();
+                    Outcome::pass(format!("deterministic/import-field-map/{}/points{}", if o.starts_with("EXIT 0") { "ok" } else { "fails" }, ex.max_points.min(9)))
+                },
+            );
+            ctx.count("states", execs);
+            ctx.count("transitions", execs);
+            ctx.count("validated", execs);
+        }
+    }
     // ---- free-running sample (not the basis of the verdict of the pass above; a difference IS a violation) ----
     let runs = ctx.tier.pick(6usize, 12usize);
     let fr_path = dir.join(format!("free-{}.ledger", ctx.shard));
